@@ -389,6 +389,8 @@ func run(cmd string, args []string) int {
 		return cmdGen(args)
 	case "attacks":
 		return cmdAttacks(args)
+	case "negotiate":
+		return cmdNegotiate(args)
 	}
 	fmt.Fprintln(os.Stderr, "unknown command", cmd)
 	return 2
